@@ -40,7 +40,17 @@ func sessionResult(prop string, tr *Trace, fs []Finding, nontrivial bool, sample
 			}
 		}
 		res.Detail = strings.Join(ds, " | ")
-		res.Witness = map[string]any{"findings": len(own), "spec": tr.Spec}
+		// control-plane timeline (lifecycle callbacks, harness actions, stream requests / ends): enough to diagnose a rare alarm
+		var tl []string
+		for _, r := range tr.Log {
+			if strings.HasPrefix(r.K, "eh.") || strings.HasPrefix(r.K, "ctl.") || strings.HasPrefix(r.K, "hook.") || strings.HasPrefix(r.K, "log.") || r.K == "sim.tx.end" || r.K == "sim.hold" || r.K == "sim.dupstream" || (r.K == "sim.rx" && r.Op == cbsim.OpDcpStreamReq) {
+				tl = append(tl, fmt.Sprintf("%d %dms %s", r.T, (r.W-tr.Log[0].W)/1e6, r.String()))
+			}
+		}
+		if len(tl) > 600 {
+			tl = append(tl[:300], tl[len(tl)-300:]...)
+		}
+		res.Witness = map[string]any{"findings": len(own), "spec": tr.Spec, "timeline": tl}
 		return res
 	}
 	if tr.BarrierTimeouts > 0 {
